@@ -637,9 +637,15 @@ Qed.
 Lemma zlen_skipn {A} k (l : list A) : 0 <= k <= zlen l -> zlen (skipn (Z.to_nat k) l) = zlen l - k.
 Proof. intros H. unfold zlen in *. rewrite skipn_length. lia. Qed.
 
+Lemma nth_skipn_nat {A} (k i : nat) (l : list A) d : nth i (skipn k l) d = nth (k + i) l d.
+Proof.
+  revert l; induction k as [|k IH]; intros l; [reflexivity|].
+  destruct l as [|x l]; [destruct i; reflexivity|]. cbn. apply IH.
+Qed.
+
 Lemma znth_skipn k l i : 0 <= k -> 0 <= i -> znth (skipn (Z.to_nat k) l) i = znth l (k + i).
 Proof.
-  intros Hk Hi. unfold znth. rewrite nth_skipn. f_equal. lia.
+  intros Hk Hi. unfold znth. rewrite nth_skipn_nat. f_equal. lia.
 Qed.
 
 Lemma sorted_le_skipn k l : 0 <= k <= zlen l -> sorted_le l -> sorted_le (skipn (Z.to_nat k) l).
@@ -666,8 +672,8 @@ Section SlicingSelectionP.
     rewrite (rd_znth col cc) by (fold nc; lia). cbn [kbind].
     rewrite (rd_znth row count) by (fold nr; lia).
     rewrite (rd_last_znth col) by (fold nc; lia). cbn [kbind].
-    destruct (znth row (nr - 1) <? znth col cc); cbn [kbind]; [eexists; reflexivity|].
-    destruct (znth col (nc - 1) <? znth row count); [eexists; reflexivity|].
+    match goal with |- context [if ?c then Done true else _] => destruct c end; cbn [kbind]; [eexists; reflexivity|].
+    match goal with |- context [if ?c then Done out else _] => destruct c end; [eexists; reflexivity|].
     destruct (znth row count =? znth col cc); [apply IH; lia|].
     destruct (znth row count <? znth col cc); apply IH; lia.
   Qed.
@@ -713,13 +719,13 @@ Section SlicingSelectionP.
     destruct (Z.leb_spec nc cc') as [H2|H2]; [eexists; reflexivity|].
     rewrite (rd_last_znth row) by (fold nr; lia). cbn [kbind].
     rewrite (rd_znth col cc') by (fold nc; lia). cbn [kbind].
-    destruct (Z.ltb_spec (znth row (nr - 1)) (znth col cc')) as [H3|H3]; cbn [kbind]; [eexists; reflexivity|].
+    fold nr. destruct (Z.ltb_spec (znth row (nr - 1)) (znth col cc')) as [H3|H3]; cbn [kbind]; [eexists; reflexivity|].
     assert (Hlt : size < nr).
     { destruct (Z.eq_dec size nr) as [E|E]; [|lia].
       specialize (Hinv E H1). pose proof (col_mono cc cc' Hcc Hc1 H2). lia. }
     rewrite (rd_znth row size) by (fold nr; lia).
     rewrite (rd_last_znth col) by (fold nc; lia). cbn [kbind].
-    destruct (znth col (nc - 1) <? znth row size); [eexists; reflexivity|].
+    match goal with |- context [if ?c then Done out else _] => destruct c end; [eexists; reflexivity|].
     assert (Hsl : zlen (skipn (Z.to_nat size) row) = nr - size) by (apply zlen_skipn; fold nr; lia).
     destruct (searchsorted_terminates_proof false (skipn (Z.to_nat size) row) (znth col cc') F ltac:(lia))
       as [s0 [Es Hs0]].
@@ -758,3 +764,208 @@ Example slicing_selection_row_repeat_out_of_bounds :
   slicing_selection_row [5] [5; 5] 0 4 = Done [(0, 0)] /\
   slicing_selection_row [3; 5] [5; 5] 0 6 = OutOfBounds.
 Proof. split; reflexivity. Qed.
+
+(* ================================================================= _match_arrays *)
+Section MatchArraysP.
+  Variable b : list Z.
+  Variable F : nat.
+  Let nb := zlen b.
+
+  Lemma ma_inner_ok fuel ia j ib m out :
+    0 <= ib -> 0 <= m < nb -> Z.max 0 (nb - ib) < Z.of_nat fuel ->
+    exists ib' m' out', ma_inner b fuel ia j ib m out = Done (ib', m', out') /\ ib <= ib' /\ 0 <= m' < nb.
+  Proof.
+    revert ib m out. induction fuel as [|f IH]; intros ib m out Hib Hm Hf; [lia|].
+    cbn [ma_inner]. fold nb.
+    destruct (Z.ltb_spec ib nb) as [H1|H1]; [|exists ib, m, out; split; [reflexivity|lia]].
+    rewrite (rd_znth b ib) by (fold nb; lia). cbn [kbind].
+    destruct (znth b ib <=? j); [|exists ib, m, out; split; [reflexivity|lia]].
+    destruct (j =? znth b ib).
+    - rewrite (rd_znth b m) by (fold nb; lia). cbn [kbind].
+      destruct (znth b m <? znth b ib).
+      + destruct (IH (ib + 1) ib (out ++ [(ia, ib)]) ltac:(lia) ltac:(lia) ltac:(lia)) as [i' [m' [o' [-> H]]]].
+        exists i', m', o'. split; [reflexivity|lia].
+      + destruct (IH (ib + 1) m (out ++ [(ia, ib)]) ltac:(lia) ltac:(lia) ltac:(lia)) as [i' [m' [o' [-> H]]]].
+        exists i', m', o'. split; [reflexivity|lia].
+    - destruct (IH (ib + 1) m out ltac:(lia) ltac:(lia) ltac:(lia)) as [i' [m' [o' [-> H]]]].
+      exists i', m', o'. split; [reflexivity|lia].
+  Qed.
+
+  Lemma ma_for_ok a ia ib m out :
+    0 <= ib -> 0 <= m < nb -> nb < Z.of_nat F ->
+    exists out', ma_for b F a ia ib m out = Done out'.
+  Proof.
+    intros Hib Hm HF. revert ia ib m out Hib Hm. induction a as [|j a IH]; intros ia ib m out Hib Hm; cbn [ma_for].
+    - eexists; reflexivity.
+    - rewrite (rd_znth b m) by (fold nb; lia). cbn [kbind].
+      destruct (ma_inner_ok F ia j (if j =? znth b m then m else ib) m out
+                  ltac:(destruct (j =? znth b m); lia) Hm ltac:(destruct (j =? znth b m); lia))
+        as [i' [m' [o' [-> [H1 H2]]]]]. cbn [kbind].
+      apply IH; [destruct (j =? znth b m); lia|assumption].
+  Qed.
+End MatchArraysP.
+
+(* no hypothesis on the inputs (sortedness matters for the RESULT, not for safety); every inner
+   while runs at most |b| + 1 times, so the total work is at most |a| * (|b| + 1) *)
+Theorem match_arrays_safe_proof :
+  forall (a b : list Z) (F : nat),
+    Z.of_nat F = zlen b + 1 -> exists out, match_arrays b F a = Done out.
+Proof.
+  intros a b F HF. unfold match_arrays.
+  destruct a as [|x a]; [eexists; reflexivity|]. destruct b as [|y b]; [eexists; reflexivity|].
+  pose proof (zlen_nonneg b). rewrite zlen_cons in HF.
+  apply ma_for_ok; rewrite ?zlen_cons; lia.
+Qed.
+
+(* ================================================================= _compute_mask narrowing loop *)
+Lemma zlen_slice_le {A} (l : list A) lo hi : zlen (slice l lo hi) <= zlen l.
+Proof.
+  unfold slice, zlen. rewrite firstn_length, skipn_length. lia.
+Qed.
+
+Section ComputeMaskP.
+  Variable F : nat.
+  Variable guess_break : nat -> bool.
+
+  Lemma gmp_matches_ok c lo hi ps acc :
+    zlen c < Z.of_nat F -> exists acc', gmp_matches F c lo hi ps acc = Done acc'.
+  Proof.
+    intros HF. revert acc. induction ps as [|p ps IH]; intros acc; cbn [gmp_matches]; [eexists; reflexivity|].
+    pose proof (zlen_slice_le c lo hi).
+    destruct (searchsorted_terminates_proof false (slice c lo hi) p F ltac:(lia)) as [a [-> _]]. cbn [kbind].
+    destruct (searchsorted_terminates_proof true (slice c lo hi) p F ltac:(lia)) as [z [-> _]]. cbn [kbind].
+    apply IH.
+  Qed.
+
+  Lemma get_mask_pairs_ok pairs c ps acc :
+    zlen c < Z.of_nat F -> exists acc', get_mask_pairs F pairs c ps acc = Done acc'.
+  Proof.
+    intros HF. revert acc. induction pairs as [|[lo hi] r IH]; intros acc; cbn [get_mask_pairs]; [eexists; reflexivity|].
+    destruct (gmp_matches_ok c lo hi ps acc HF) as [a' ->]. cbn [kbind]. apply IH.
+  Qed.
+
+  Lemma cm_loop_ok fuel i coords ranges pairs :
+    Forall (fun c => zlen c < Z.of_nat F) coords -> (length coords < fuel)%nat ->
+    exists r, cm_loop F guess_break fuel i coords ranges pairs = Done r.
+  Proof.
+    intros Hc. revert fuel i ranges pairs. induction Hc as [|c coords Hc0 Hc IH]; intros fuel i ranges pairs Hf.
+    - destruct fuel; [cbn in Hf; lia|]. cbn. eexists; reflexivity.
+    - destruct fuel; [cbn in Hf; lia|]. cbn [cm_loop].
+      destruct ranges as [|ps ranges]; [eexists; reflexivity|].
+      destruct (guess_break i); [eexists; reflexivity|].
+      destruct (get_mask_pairs_ok pairs c ps [] Hc0) as [p' ->]. cbn [kbind].
+      apply IH. cbn in Hf. lia.
+  Qed.
+End ComputeMaskP.
+
+(* every oracle (whatever the float estimate answers): the loop runs at most ndim times, each
+   binary search at most nnz + 1 probes *)
+Theorem compute_mask_narrow_safe_proof :
+  forall (guess_break : nat -> bool) (nnz : Z) (coords ranges : list (list Z)) (F : nat),
+    0 <= nnz -> Forall (fun c => zlen c = nnz) coords ->
+    Z.of_nat F = nnz + zlen coords + 1 ->
+    exists r, compute_mask_narrow F guess_break nnz coords ranges = Done r.
+Proof.
+  intros g nnz coords ranges F Hn Hc HF. unfold compute_mask_narrow.
+  pose proof (zlen_nonneg coords).
+  apply cm_loop_ok.
+  - eapply Forall_impl; [|exact Hc]. cbn. intros a Ha. lia.
+  - unfold zlen in *. lia.
+Qed.
+
+(* ================================================================= _sort_coo group scan *)
+Lemma sort_scan_ok gs idx prev first n acc :
+  Forall (fun g => -1 <= g) gs -> 0 <= idx -> idx + zlen gs = n + 1 -> (prev <> -1 -> 0 <= first) ->
+  exists r, sort_scan gs idx prev first n acc = Done r.
+Proof.
+  intros Hg. revert idx prev first acc. induction Hg as [|g gs Hg0 Hg IH]; intros idx prev first acc Hi Hn Hf;
+    cbn [sort_scan]; [eexists; reflexivity|].
+  rewrite zlen_cons in Hn. pose proof (zlen_nonneg gs).
+  destruct (Z.eqb_spec g prev); [apply IH; lia|].
+  destruct (Z.eqb_spec prev (-1)); cbn [negb].
+  - apply IH; try lia.
+  - destruct (Z.ltb_spec first 0); [lia|]. destruct (Z.ltb_spec n idx); [lia|]. cbn [orb].
+    apply IH; lia.
+Qed.
+
+Theorem sort_coo_scan_in_bounds_proof :
+  forall group_coords : list Z,
+    Forall (fun g => 0 <= g) group_coords -> exists r, sort_coo_scan group_coords = Done r.
+Proof.
+  intros gs Hg. unfold sort_coo_scan. apply sort_scan_ok; try lia.
+  - apply Forall_app. split; [eapply Forall_impl; [|exact Hg]; cbn; intros; lia|repeat constructor; lia].
+  - rewrite zlen_app. unfold zlen at 2. cbn. lia.
+Qed.
+
+(* ================================================================= algA *)
+Lemma rd_wrap_ok {A} (l : list A) i : - zlen l <= i < zlen l -> exists v, rd l i = Done v.
+Proof.
+  intros H. unfold rd.
+  destruct (Z.ltb_spec i 0).
+  - destruct (Z.ltb_spec (i + zlen l) 0); [lia|]. destruct (Z.leb_spec (zlen l) (i + zlen l)); [lia|]. cbn.
+    destruct (nth_error l (Z.to_nat (i + zlen l))) eqn:E; [eexists; reflexivity|].
+    apply nth_error_None in E. unfold zlen in *. lia.
+  - destruct (Z.ltb_spec i 0); [lia|]. destruct (Z.leb_spec (zlen l) i); [lia|]. cbn.
+    destruct (nth_error l (Z.to_nat i)) eqn:E; [eexists; reflexivity|].
+    apply nth_error_None in E. unfold zlen in *. lia.
+Qed.
+
+Section AlgAP.
+  Variable F : nat.
+  Variable gt : nat -> bool.
+  Variable last_draw : Z.
+
+  (* n = N - top is the number of elements still to be selected; it stays >= 2 inside the loop, so
+     N - 1 = (top - 1) + n never reaches 0 and top never goes below 0 *)
+  Lemma algA_inner_ok fuel qz S_ top N k nn :
+    0 <= top -> N = top + nn -> 2 <= nn -> qz = (top =? 0) -> top < Z.of_nat fuel ->
+    exists S' top' N' k', algA_inner gt fuel qz S_ top N k = Done (S', top', N', k') /\
+                          0 <= top' /\ top' <= top /\ N' = top' + nn.
+  Proof.
+    revert qz S_ top N k. induction fuel as [|f IH]; intros qz S_ top N k Ht HN Hn Hq Hf; [lia|].
+    cbn [algA_inner]. subst qz.
+    destruct (Z.eqb_spec top 0) as [E|E]; cbn [negb andb].
+    - exists S_, top, N, k. split; [reflexivity|lia].
+    - destruct (gt k).
+      + destruct (Z.eqb_spec (N - 1) 0) as [E0|E0]; [lia|].
+        destruct (IH (false || (top - 1 =? 0)) (S_ + 1) (top - 1) (N - 1) (S k)
+                    ltac:(lia) ltac:(lia) Hn ltac:(reflexivity) ltac:(lia)) as [S' [t' [N' [k' [-> H]]]]].
+        exists S', t', N', k'. split; [reflexivity|lia].
+      + exists S_, top, N, (S k). split; [reflexivity|lia].
+  Qed.
+
+  Lemma algA_outer_ok fuel n N top i arr k :
+    1 <= n -> 0 <= top -> N = top + n -> 0 <= i -> i + n = zlen arr -> n < Z.of_nat fuel -> N < Z.of_nat F ->
+    exists arr', algA_outer F gt last_draw fuel n N top i arr k = Done arr'.
+  Proof.
+    revert n N top i arr k. induction fuel as [|f IH]; intros n N top i arr k Hn Ht HN Hi Hlen Hf HF; [lia|].
+    cbn [algA_outer].
+    destruct (Z.leb_spec 2 n) as [H2|H2].
+    - destruct (Z.eqb_spec N 0); [lia|].
+      destruct (algA_inner_ok F (top =? 0) 0 top N k n Ht HN H2 eq_refl ltac:(lia))
+        as [S' [t' [N' [k' [-> [H3 [H4 H5]]]]]]]. cbn [kbind].
+      destruct (rd_wrap_ok arr (i - 1) ltac:(lia)) as [p ->]. cbn [kbind].
+      destruct (wr_ok arr i (p + S' + 1) ltac:(lia)) as [arr' [-> Hl]]. cbn [kbind].
+      apply IH; try lia. unfold zlen in *. lia.
+    - destruct (rd_wrap_ok arr (i - 1) ltac:(lia)) as [p ->]. cbn [kbind].
+      destruct (wr_ok arr i (p + last_draw + 1) ltac:(lia)) as [arr' [-> Hl]]. eexists; reflexivity.
+  Qed.
+End AlgAP.
+
+(* for EVERY oracle (every sequence of answers to `quot > V`, every last draw): with the guard
+   1 <= n <= N that `random` establishes, fuel N + 1 suffices for every loop, no access is out
+   of bounds and no division has a zero divisor *)
+Theorem algA_safe_proof :
+  forall (gt : nat -> bool) (last_draw n N : Z) (F : nat),
+    1 <= n <= N -> Z.of_nat F = N + 1 ->
+    exists arr, algA F gt last_draw n N = Done arr.
+Proof.
+  intros gt ld n N F Hn HF. unfold algA.
+  assert (Hz : zlen (repeat 0 (Z.to_nat n)) = n) by (unfold zlen; rewrite repeat_length; lia).
+  destruct (wr_last_ok (repeat 0 (Z.to_nat n)) (-1) ltac:(lia)) as [arr [-> Hl]]. cbn [kbind].
+  apply algA_outer_ok; try lia. unfold zlen in *. lia.
+Qed.
+
+(* without the guard the very first statement after the allocation writes outside the buffer *)
+Example algA_n0_out_of_bounds : forall gt ld F, algA F gt ld 0 5 = OutOfBounds.
+Proof. reflexivity. Qed.
